@@ -27,6 +27,14 @@ TRUSTED = [
     "PCA: only centered=True (domain = the norm ball); with centered=False the library subtracts a noisy mean from the "
     "unclipped data before the norm clip, so the bounds are not a clipping domain there",
 ]
+TRUSTED += [
+    "the model has ONE numeric carrier: that the result array can hold the bounds whatever the data type of the caller's "
+    "array (int64/int32/int8/bool/float32 data, a list of Python ints for the tools) is observed by the correspondence and the "
+    "direct checks on typed arrays, not proved; per-feature bounds whose count differs from the number of columns are refused "
+    "(a 1-column array would be broadcast to a wider one: not generated)",
+    "multi-step use (fit then partial_fit / refit / warm start on the same instance) is covered by the end-to-end equality on "
+    "two-batch sequences f(A then D) == f(A then clip(D)), not by a theorem about the estimator's state",
+]
 UNPROVED = [
     "clip_to_norm over doubles: ||row|| <= c(1+1e-12) and approximate idempotence are validated on every run, the "
     "theorems clip_norm_le / clip_norm_idem are over R (the bounds-clipping theorems are carrier-independent and hold "
@@ -39,7 +47,10 @@ RULE = ("helper cases: arrays of 0-6 rows x 1-9 columns with entries inside / ex
         "when at least one entry is moved by the clip; distinct by (bounds kind, which entries moved). end-to-end cases: "
         "(tool or estimator, axis / option, bounds kind, dataset with 5-60 % out-of-domain entries, integer seed); for "
         "norm domains an out-of-ball row is kept only if its rescaled image is an exact fixed point of the rescaling "
-        "(about half of all rows), so that bit-for-bit equality is the correct expectation; non-trivial when clip(D) != D")
+        "(about half of all rows), so that bit-for-bit equality is the correct expectation; non-trivial when clip(D) != D. "
+        "Variants of both streams: data typed int64/int32/int8/bool/float32/Python-int list with fractional scalar and per-feature "
+        "bounds the type cannot represent; rows whose norm is c(1 +- delta), delta from a few ulps to 1e-4; two-batch sequences "
+        "(fit+partial_fit, partial_fit twice, refit, warm start) with the out-of-domain records in the second batch")
 
 V = dp.validation
 
